@@ -9,6 +9,7 @@ import (
 	"os"
 	"sort"
 	"strings"
+	"sync"
 	"time"
 
 	pvfs "github.com/cockroachdb/pebble/vfs"
@@ -36,7 +37,13 @@ type createdAt struct {
 	start, done int // positions in the schedule: first store operation released / call finished
 }
 
-func runCatSchedule(scripts map[int][]catCall, k int, choose func(parked []int, step int) int) (acts, results, trace []string, created []createdAt, err error) {
+// lastCatProbe: set by runCatSchedule when the final listing and the lookups disagree.
+var lastCatProbe string
+
+func runCatSchedule(scripts map[int][]catCall, k int, choose func(parked []int, step int) int, batch func(step int) bool) (acts, results, trace []string, created []createdAt, err error) {
+	catProbe := ""
+	var probeMu sync.Mutex
+	defer func() { probeMu.Lock(); lastCatProbe = catProbe; probeMu.Unlock() }()
 	store := newSchedStore()
 	// Restore (kinds 3 and 4, manager 0 only) needs a real NodeHost: it starts the recovery shard and loads the stream
 	// between its store operations
@@ -139,6 +146,20 @@ func runCatSchedule(scripts map[int][]catCall, k int, choose func(parked []int, 
 							}
 						}
 					}
+					// everybody else is parked at a gate while this call runs: the listing must name exactly the tables
+					// whose record exists right now
+					for _, n := range catNames {
+						_, ge := store.lookup(kv.QueryKey{Key: "/tables/" + n})
+						listed := false
+						for _, t := range ts {
+							listed = listed || t.Name == n
+						}
+						if listed != (ge == nil) {
+							probeMu.Lock()
+							catProbe = fmt.Sprintf("a listing by manager %d: table %q listed=%v, record lookup error=%v", a, n, listed, ge)
+							probeMu.Unlock()
+						}
+					}
 					sort.Strings(parts)
 					done("list:" + strings.Join(parts, ","))
 				}
@@ -197,7 +218,52 @@ func runCatSchedule(scripts map[int][]catCall, k int, choose func(parked []int, 
 		}
 		opIdx[a]++
 		trace = append(trace, fmt.Sprintf("m%d.%s(%s)", a, ev.op, strings.TrimPrefix(ev.key, "/tables/")))
+		// two writes that are both waiting may be committed together and reach the state machine in ONE Update call
+		other := -1
+		if (ev.op == "set" || ev.op == "delete") && batch != nil && batch(step) {
+			for _, b := range parked {
+				if o := sch.waiting[b].op; b != a && (o == "set" || o == "delete") {
+					other = b
+					break
+				}
+			}
+		}
+		if other < 0 {
+			sch.release(a)
+			continue
+		}
+		store.beginBatch(2)
 		sch.release(a)
+		<-store.enq
+		acts = append(acts, fmt.Sprintf("AStep %d%%nat", other))
+		opIdx[other]++
+		trace = append(trace, fmt.Sprintf("m%d.%s(%s)[same-batch]", other, sch.waiting[other].op, strings.TrimPrefix(sch.waiting[other].key, "/tables/")))
+		sch.release(other)
+		<-store.enq
+		store.deliver(0)
+		sch.running--
+		sch.settle(onDone)
+		sch.running++
+		store.deliver(1)
+	}
+	// when everybody is done: the listing and the lookups describe the same set of tables
+	{
+		probe := table.NewManager(nil, nil, &gate{id: 99, store: store}, table.Config{NodeID: 99, Table: table.TableConfig{BlockCacheSize: 1024, TableCacheSize: 1024}})
+		if ts, e := probe.GetTables(); e == nil {
+			listed := map[string]bool{}
+			for _, t := range ts {
+				listed[t.Name] = true
+			}
+			for _, n := range catNames {
+				// (Manager.GetTable is a Get of the table's record; without a NodeHost it cannot build the handle)
+				_, ge := store.lookup(kv.QueryKey{Key: "/tables/" + n})
+				if listed[n] != (ge == nil) {
+					probeMu.Lock()
+					catProbe = fmt.Sprintf("table %q: listed=%v, record lookup error=%v", n, listed[n], ge)
+					probeMu.Unlock()
+				}
+			}
+		}
 	}
 	return acts, results, trace, created, nil
 }
@@ -245,12 +311,13 @@ func runC14(args []string) error {
 	}
 	r := rf.rng()
 	sum := &Summary{Engine: "c14", Seed: rf.Seed,
-		Rule: "(a) real table.Manager createTable/DeleteTable/GetTables and Restore (complete and interrupted streams, on a real NodeHost) for 2-3 managers over one metadata store with the real kv.LFSM compare-and-set semantics, every store operation released by a scheduler: all interleavings of two creations (same name, different names) and create/delete pairs enumerated, plus seeded random schedules of 1-4 calls per manager over three names; oracle: ids of successful creations never repeat and increase, at most one of racing creations of one name succeeds; (b) real diffTables on enumerated catalogue/running-set combinations; (c) a real Manager on a single-node dragonboat NodeHost: create, fill, delete, recreate under the same name, restore, tables with '/' in the name: new tables empty, other tables untouched, ids never reused; distinct = distinct (scripts, schedule); non-trivial = operations of two managers interleave inside a call"}
+		Rule: "(a) real table.Manager createTable/DeleteTable/GetTables and Restore (complete and interrupted streams, on a real NodeHost) for 2-3 managers over one metadata store with the real kv.LFSM compare-and-set semantics, every store operation released by a scheduler (two waiting writes optionally applied by ONE LFSM.Update call): all interleavings of two creations (same name, different names) and create/delete pairs enumerated, plus seeded random schedules of 1-4 calls per manager over three names; oracle: ids of successful creations never repeat and increase, at most one of racing creations of one name succeeds; (b) real diffTables on enumerated catalogue/running-set combinations; (c) a real Manager on a single-node dragonboat NodeHost: create, fill, delete, recreate under the same name, restore, tables with '/' in the name: new tables empty, other tables untouched, ids never reused; distinct = distinct (scripts, schedule); non-trivial = operations of two managers interleave inside a call"}
 	cf := &CasesFile{Requires: []string{"Model.Bytes", "Model.Obs", "Model.Catalogue", "Run.C14Run"}, CaseType: "c14case", Check: "c14_check", Show: "c14_model"}
 	hk := sum.hist("schedules")
 	seen := map[string]bool{}
+	var batching func(int) bool
 	record := func(scripts map[int][]catCall, k int, choose func([]int, int) int, kind string) error {
-		acts, results, trace, created, err := runCatSchedule(scripts, k, choose)
+		acts, results, trace, created, err := runCatSchedule(scripts, k, choose, batching)
 		if err != nil {
 			return err
 		}
@@ -259,6 +326,9 @@ func runC14(args []string) error {
 			return nil
 		}
 		seen[d] = true
+		if lastCatProbe != "" {
+			sum.violate(sum.Evaluations+1, "listing and lookup do not describe the same tables", map[string]any{"schedule": d}, lastCatProbe)
+		}
 		cf.Add(fmt.Sprintf("{| g_managers := %d%%nat; g_acts := %s; g_impl := %s |}", k, cList(acts), catResultObs(results)), d)
 		hk.Inc(kind)
 		sum.Evaluations++
@@ -306,6 +376,12 @@ func runC14(args []string) error {
 				if err := record(scripts, 2, func(parked []int, step int) int { return (b >> uint(step%8)) & 1 }, "exhaustive-2-managers"); err != nil {
 					return err
 				}
+				batching = func(int) bool { return true }
+				err := record(scripts, 2, func(parked []int, step int) int { return (b >> uint(step%8)) & 1 }, "exhaustive-2-managers, waiting writes applied in one batch")
+				batching = nil
+				if err != nil {
+					return err
+				}
 			}
 		}
 	}
@@ -351,7 +427,14 @@ func runC14(args []string) error {
 			}
 			scripts[a] = cs
 		}
-		if err := record(scripts, k, func(parked []int, step int) int { return r.Intn(len(parked)) }, "random"); err != nil {
+		kind := "random"
+		if i%2 == 1 {
+			batching = func(int) bool { return r.Intn(2) == 0 }
+			kind = "random, some waiting writes applied in one batch"
+		}
+		err := record(scripts, k, func(parked []int, step int) int { return r.Intn(len(parked)) }, kind)
+		batching = nil
+		if err != nil {
 			return err
 		}
 	}
